@@ -507,3 +507,62 @@ func vh_recv_twice() {
 	}
 	vObserve("delivered", vSentOn(c1.resp)+vSentOn(c2.resp))
 }
+
+// ---- the body reader behind readFrame (Conn.Read): retries after a read deadline ----
+//
+// A frame body may arrive in pieces with read-deadline expiries in between. Conn.Read must account for
+// every byte the socket delivered: it returns n = len(p) with no error exactly when all pieces arrived,
+// asks the socket each time for exactly the part of p that is still missing, and never reports more or
+// fewer bytes than were read - otherwise the receive loop loses frame alignment and a later response is
+// parsed from the wrong offset and handed to whichever call owns the stream id found there.
+
+type vTempErr struct{}
+
+func (vTempErr) Error() string   { return "verif: i/o timeout" }
+func (vTempErr) Timeout() bool   { return true }
+func (vTempErr) Temporary() bool { return true }
+
+var (
+	vRFCalls  int
+	vRFGot    int  // bytes delivered so far
+	vRFAligned bool // every call was handed exactly the missing tail of p
+	vRFBuf    []byte
+	vRFFatal  bool
+)
+
+func vstubReadFull(r io.Reader, buf []byte) (int, error) {
+	vRFCalls++
+	if len(buf) != len(vRFBuf)-vRFGot || (len(buf) > 0 && &buf[0] != &vRFBuf[vRFGot]) {
+		vRFAligned = false
+	}
+	k := vInt("piece")
+	vAssume(k >= 0 && k <= len(buf))
+	vRFGot += k
+	if k == len(buf) {
+		return k, nil
+	}
+	if vBool("fatal_error") {
+		vRFFatal = true
+		return k, vErrIO
+	}
+	return k, vTempErr{}
+}
+
+func vh_conn_read() {
+	c := vNewConn()
+	if vBool("timeout_configured") {
+		c.timeout = time.Second
+	}
+	L := vBound("L")
+	p := make([]byte, L)
+	vRFCalls, vRFGot, vRFAligned, vRFBuf, vRFFatal = 0, 0, true, p, false
+	n, err := c.Read(p)
+	vAssert(vRFAligned, "C01/read/each-attempt-asks-for-exactly-the-missing-bytes")
+	vAssert(n == vRFGot, "C01/read/reports-exactly-the-bytes-that-were-read")
+	vAssert((err == nil) == (n == L), "C01/read/success-iff-the-whole-body-was-read")
+	vAssert(vRFCalls <= 5, "C01/read/bounded-retries")
+	if vRFFatal {
+		vAssert(err != nil, "C01/read/fatal-error-is-reported")
+	}
+	vObserve("n", n)
+}
